@@ -7,6 +7,14 @@ from .cooc_cfg import tla_cfg
 INVS = ["Refines", "BeforeIsTransposeOfAfter", "WindowMassOne", "ShiftInvariant", "MaskKeepsPositions", "NullifyRemovesOnlyTheMask", "ThreshOK"]
 
 
+def emit_shapes(ctx, V, shapes, cfgs, what, **kw):
+    """emit() for several (maxlen, maxdocs) bounds; the union of the instances (bounded instance spaces instead of one huge product)"""
+    items = []
+    for maxlen, maxdocs in shapes:
+        items += emit(ctx, V, maxlen, maxdocs, cfgs, "%s [len<=%d docs<=%d]" % (what, maxlen, maxdocs), **kw)
+    return items
+
+
 def emit(ctx, V, maxlen, maxdocs, cfgs, what, module="Cooc", simulate=None, depth=None, seed=0, shards=8,
          invariants=INVS, extra_constants=None, timeout=3000):
     """Returns list of items {corpus, ci, cfg, V, cells}. cfgs are split over `shards` TLC processes."""
